@@ -11,6 +11,7 @@ mod numtower;
 mod pool;
 mod reader;
 mod synrules;
+mod vmtrace;
 mod gen_cmd;
 mod gcsnap;
 mod gen_alloc;
@@ -35,6 +36,7 @@ fn main() {
         "eval" => eval_file(&args[2..]),
         "gcsnap" => gcsnap::main(&args[2..]),
         "codec" => codec::main(&args[2..]),
+        "vmtrace" => vmtrace::main(&args[2..]),
         "builtins" => builtins::main(&args[2..]),
         "pool" => pool::main(&args[2..]),
         "garbage" => gcsnap::garbage_main(&args[2..]),
